@@ -81,6 +81,8 @@ type Exec struct {
 	// events of the block being / last executed (for event-based oracles)
 	BeginEvents, EndEvents []abci.Event
 	TxEvents               [][]abci.Event
+	// PostProcess may re-tag or filter the discrepancies of one action (scenario-specific attribution)
+	PostProcess func(e *Exec, discs []Disc) []Disc
 	// InitDiscs: what Visit reported on the genesis state
 	InitDiscs []Disc
 	// Annotate may add discrete facts to a discrepancy (for known-finding signatures)
@@ -383,6 +385,9 @@ func (e *Exec) Run(a *Action, oracle bool) (StepObs, []Disc) {
 		if !obs.Diverged {
 			discs = append(discs, Compare(e.W, e.M, e.Tracked)...)
 		}
+	}
+	if e.PostProcess != nil {
+		discs = e.PostProcess(e, discs)
 	}
 
 	return obs, discs
